@@ -127,6 +127,23 @@ def std_streams_never_close : Prop :=
     (hostOp "io_close_writer" [.writer 0, .thunk k₁, .thunk k₂] σ) = (σ, .call 2 []) ∧
     (hostOp "io_close_writer" [.writer 1, .thunk k₁, .thunk k₂] σ) = (σ, .call 2 [])
 
+/-- **Line reads select their continuation by the input, not by the line.** On standard input the
+line read takes the end-of-input continuation exactly when nothing is left to read (a blank line
+is a line); otherwise the line continuation receives the bytes up to the first `\n` with one
+`\n` or `\r\n` terminator removed (everything, unchanged, when no `\n` is left) and the rest of the
+input stays unread; nothing is lost or invented. -/
+def line_read_contract : Prop :=
+  (∀ (σ : Host) (k₁ k₂ k₃ : Nat),
+    hostOp "io_read_line" [.reader 0, .thunk k₁, .thunk k₂, .thunk k₃] σ =
+      if σ.stdin = [] then (σ, .call 2 [])
+      else ({ σ with stdin := (takeLine σ.stdin).2 },
+            .call 3 [.bytes (stripEol (takeLine σ.stdin).1)])) ∧
+  (∀ b : Bytes, (takeLine b).1 ++ (takeLine b).2 = b ∧ ((takeLine b).1 = [] ↔ b = [])) ∧
+  (∀ l rest : Bytes, 10 ∉ l →
+    takeLine (l ++ 10 :: rest) = (l ++ [10], rest) ∧
+    stripEol (l ++ [10]) = if l.getLast? = some 13 then l.dropLast else l) ∧
+  (∀ b : Bytes, 10 ∉ b → takeLine b = (b, []) ∧ stripEol b = b)
+
 end Statement
 
 /-- The regenerated table has one row per role the code enumerates. -/
@@ -163,6 +180,12 @@ theorem splitOnce_spec : Statement.splitOnce_spec :=
 
 theorem std_streams_never_close : Statement.std_streams_never_close :=
   fun σ k₁ k₂ => ZV.Host.std_streams_never_close σ k₁ k₂
+
+theorem line_read_contract : Statement.line_read_contract :=
+  ⟨ZV.Host.io_read_line_stdin,
+   fun b => ⟨ZV.Host.takeLine_append b, ZV.Host.takeLine_nil_iff b⟩,
+   fun l rest h => ⟨ZV.Host.takeLine_of_newline l rest h, ZV.Host.stripEol_newline l⟩,
+   fun b h => ⟨ZV.Host.takeLine_no_newline b h, ZV.Host.stripEol_no_newline b h⟩⟩
 
 /-! ### UTF-8 -/
 
@@ -233,6 +256,14 @@ theorem split_once_example :
     splitOnce ['a', '=', 'b', '=', 'c'] '=' = some (['a'], ['b', '=', 'c']) ∧ splitOnce ['a'] '=' = none := by
   decide
 
+/-- A blank line is a line, not the end of input: `alpha`, blank, `beta` are three reads. -/
+theorem blank_line_is_a_line :
+    takeLine [97, 10, 10, 98, 10] = ([97, 10], [10, 98, 10]) ∧ takeLine [10, 98, 10] = ([10], [98, 10]) ∧
+    stripEol [10] = [] ∧ stripEol [13, 10] = [] ∧ stripEol [120, 13, 10] = [120] ∧
+    (hostOp "io_read_line" [.reader 0, .thunk 1, .thunk 2, .thunk 3] { stdin := [10, 98, 10] }).2
+      = .call 3 [.bytes []] ∧
+    (hostOp "io_read_line" [.reader 0, .thunk 1, .thunk 2, .thunk 3] { stdin := [] }).2 = .call 2 [] := by
+  decide
 
 /-- Division by zero is the arithmetic trap, at a concrete role of the table. -/
 theorem div_by_zero_traps (σ : Host) :
